@@ -56,6 +56,9 @@ func genSession(t *rapid.T) Session {
 		for _, f := range order {
 			s.Reqs = append(s.Reqs, Req{K: "sub", Topics: []string{f}})
 		}
+		for i, n := 0, rapid.IntRange(0, 2).Draw(t, "dups"); i < n; i++ { // a member is subscribed again (a duplicate: acknowledged, nothing changes)
+			s.Reqs = append(s.Reqs, Req{K: "sub", Topics: []string{rapid.SampledFrom(fam).Draw(t, "dup")}})
+		}
 		drop := rapid.Permutation(fam).Draw(t, "droporder")
 		for _, f := range drop[:rapid.IntRange(0, len(drop)).Draw(t, "ndrop")] {
 			s.Reqs = append(s.Reqs, Req{K: "unsub", Topics: []string{f}})
